@@ -16,6 +16,10 @@ structure Oracle where
   syns : List (String × String × Option String) := []
   /-- `LitStr::parse::<ExprArray>()`: input ↦ the array expression -/
   arrs : List (String × Option Expr) := []
+  /-- values of user-supplied nullary functions / `Default` impls, evaluated by the harness -/
+  vals : List (String × Val) := []
+  /-- strsim scores `(unknown name, candidate) ↦ bits` -/
+  scores : List (String × String × Nat) := []
 
 namespace Oracle
 def parseFloat (o : Oracle) (w : Nat) (s : String) : Option Nat :=
@@ -26,6 +30,14 @@ def parseSyn (o : Oracle) (kind s : String) : Option String :=
   match o.syns.find? (fun r => r.1 == kind && r.2.1 == s) with
   | some r => r.2.2
   | none => none
+def val? (o : Oracle) (key : String) : Option Val := (o.vals.find? (·.1 == key)).map (·.2)
+def score (o : Oracle) (a b : String) : Nat :=
+  match o.scores.find? (fun r => r.1 == a && r.2.1 == b) with
+  | some r => r.2.2
+  | none => 0
+def merge (a b : Oracle) : Oracle :=
+  { floats := a.floats ++ b.floats, syns := a.syns ++ b.syns, arrs := a.arrs ++ b.arrs,
+    vals := a.vals ++ b.vals, scores := a.scores ++ b.scores }
 def parseArr (o : Oracle) (s : String) : Option Expr :=
   match o.arrs.find? (fun r => r.1 == s) with
   | some r => r.2
@@ -76,7 +88,8 @@ end Probe
 def renameRuleNames : List String :=
   ["lowercase", "PascalCase", "camelCase", "snake_case", "SCREAMING_SNAKE_CASE", "kebab-case"]
 
-def hooksOf (o : Oracle) : Ty → Hooks Val
+/-- `recvHooks` resolves derived receivers of the corpus (driver environment) -/
+def hooksOf (o : Oracle) (recvHooks : String → Hooks Val := fun _ => {}) : Ty → Hooks Val
   | .unit => Scalars.unitHooks .unit
   | .bool => Scalars.boolHooks .bool
   | .char => Scalars.charHooks .char
@@ -86,13 +99,13 @@ def hooksOf (o : Oracle) : Ty → Hooks Val
   | .float w => Scalars.floatHooks (o.parseFloat w) .float
   | .atomicBool => Wrappers.atomicBoolHooks .bool
   | .flag => Wrappers.flagHooks .flag
-  | .option t => Wrappers.optionOf .some .none (hooksOf o t)
-  | .ptr t => Wrappers.ptrOf .ptr (hooksOf o t)
-  | .result t => Wrappers.resultOf .okv .errv (hooksOf o t)
-  | .resultMeta t => Wrappers.resultMetaOf .okm (fun m => .errm m.toks) (hooksOf o t)
-  | .override t => Wrappers.overrideOf .explicit .inherit (hooksOf o t)
-  | .spanned t => Wrappers.spannedOf .spanned (hooksOf o t)
-  | .withOrig t => Wrappers.withOriginalOf (fun v m => .withOrig v m.toks) (hooksOf o t)
+  | .option t => Wrappers.optionOf .some .none (hooksOf o recvHooks t)
+  | .ptr t => Wrappers.ptrOf .ptr (hooksOf o recvHooks t)
+  | .result t => Wrappers.resultOf .okv .errv (hooksOf o recvHooks t)
+  | .resultMeta t => Wrappers.resultMetaOf .okm (fun m => .errm m.toks) (hooksOf o recvHooks t)
+  | .override t => Wrappers.overrideOf .explicit .inherit (hooksOf o recvHooks t)
+  | .spanned t => Wrappers.spannedOf .spanned (hooksOf o recvHooks t)
+  | .withOrig t => Wrappers.withOriginalOf (fun v m => .withOrig v m.toks) (hooksOf o recvHooks t)
   | .probe mask failing => Probe.hooks mask failing
   | .synExpr => SynTypes.exprHooks (o.parseSyn "Expr") .toks
   | .synPath => SynTypes.pathHooks (o.parseSyn "Path") .toks
@@ -112,6 +125,6 @@ def hooksOf (o : Oracle) : Ty → Hooks Val
   | .ignored => SynTypes.ignoredHooks .unit
   | .pathList => SynTypes.pathListHooks .toks .list
   | .callable => SynTypes.callableHooks .toks
-  | .map key _ t => Maps.mapHooks key .map (hooksOf o t)
+  | .map key _ t => Maps.mapHooks key .map (hooksOf o recvHooks t)
   | .vec _ => {}
-  | .recv _ => {}                -- resolved by the driver's environment (Derive/Env.lean)
+  | .recv n => recvHooks n
